@@ -27,7 +27,7 @@ func genC04(r *Rnd, t Tier) *Case {
 		br.Period = time.Duration(r.Range(5, 20)) * 10 * unit
 	case 3:
 		br.RateThr = uint(pick(r, 50, 51, 100, 34))
-		br.ExecThr = uint(r.Range(1, 4))
+		br.ExecThr = uint(r.Range(0, 4))
 		br.Period = time.Duration(r.Range(5, 20)) * 10 * unit
 	}
 	if r.P(0.5) {
@@ -37,6 +37,10 @@ func genC04(r *Rnd, t Tier) *Case {
 		}
 	}
 	br.Delay = time.Duration(r.Range(5, 40)) * unit
+	sleepBase := br.Delay
+	if r.P(0.06) {
+		br.Delay = foreverDelay(r)
+	}
 	sc.Policies = []PolicySpec{br}
 	nst := r.Range(1, 3)
 	for s := 0; s < nst; s++ {
@@ -69,7 +73,7 @@ func genC04(r *Rnd, t Tier) *Case {
 		var ops []Op
 		for i, n := 0, r.Range(1, 4); i < n; i++ {
 			if r.P(0.4) {
-				d := pick(r, time.Duration(r.Range(1, 30))*unit, br.Delay, br.Delay-1, br.Delay+1, br.Delay*2)
+				d := pick(r, time.Duration(r.Range(1, 30))*unit, sleepBase, sleepBase-1, sleepBase+1, sleepBase*2)
 				ops = append(ops, Op{Kind: "sleep", Dur: d})
 			}
 			s := genScript(r, unit, r.Range(1, 3), pick(r, 0.3, 0.6, 0.9))
@@ -153,6 +157,33 @@ func checkC04(c *checkCtx) {
 			} else if !(n.Exit.Val == nil && errors.Is(n.Exit.Err, circuitbreaker.ErrOpen)) {
 				c.fail("C04.open-admits", "error", fmt.Sprintf("exec %d was refused by the open breaker with %s instead of ErrOpen", cl.v.ID, outcomeStr(n.Exit)))
 			}
+		}
+	}
+	// (a2) the breaker leaves the open state for the half-open state only once its delay has elapsed.
+	// The instant it opened lies at or after the last thing the opening task logged before the
+	// listener ran, and the instant it half-opened at or before the half-open listener's log time
+	// (a stalled task only logs later), so the difference bounds the elapsed time from above.
+	manual := len(p.DelayFn) > 0
+	for i := range ev {
+		if ev[i].Kind == EvStandalone && ev[i].Pos == 0 {
+			manual = true
+		}
+	}
+	for k, tr := range trs {
+		if manual || tr.to != 2 || tr.from != 1 || k == 0 || trs[k-1].to != 1 {
+			continue
+		}
+		op := trs[k-1]
+		opened := op.t
+		for j := op.seq - 1; j >= 0; j-- {
+			if ev[j].Task == ev[op.seq].Task && !(ev[j].Kind == EvListener && ev[j].Pos == 0 && (ev[j].L == LBrStateChanged || ev[j].L == LBrOpen)) {
+				opened = ev[j].T
+				break
+			}
+		}
+		c.cov("c04.halfopen_after_delay_checked")
+		if el := tr.t - opened; el < p.Delay {
+			c.fail("C04.open-admits", "early-halfopen", fmt.Sprintf("the breaker opened at t>=%v (event #%d) and half-opened at t<=%v (event #%d): at most %v of its %v delay had elapsed", opened, op.seq, tr.t, tr.seq, el, p.Delay))
 		}
 	}
 	// (b) half-open: concurrently running admitted trials never exceed the capacity
